@@ -21,7 +21,8 @@ AUDIT = "Audit/C19.lean"
 GENERATED = ["CtxFacts"]
 ASSUMPTIONS = [
     "see C09: module contents abstract, imports through the import callback, internal modules left out of the model and of the compared snapshots "
-    "(ly_ctx_get_modules_hash skips them as well)",
+    "(whether ly_ctx_get_modules_hash covers them is read from context.c: the model then hashes name, revision and implemented of the rows of "
+    "internal_modules[] in front of the other modules; none of its histories implements an internal module — that is checked on real modules only)",
     "yl_roundtrip is OPEN as a theorem (Props/C19.lean): the claim rests on `ylLoad` = ly_ctx_new_yldata by correspondence and on the law "
     "evaluated on the implementation",
     "`char` is signed on the build host (the hash adds sign-extended bytes); mirrored in the model, checked by the jenkins cases",
